@@ -10,6 +10,9 @@ Each is `rfl` against the generated definition: an edit of the corresponding com
 statement order or default in simulator.py / int_scipy.py makes the lemma — and every theorem of
 Props/C04.lean and Props/C14.lean behind it — fail to check. -/
 
+/-- every section of the source has the shape translate/c04.py reads -/
+theorem gen_supported : Gen.unsupported = [] := rfl
+
 @[simp] theorem gen_simulateRefusal (a b : Rat) : Gen.simulateRefusal.eval a b = decide (a ≤ b) := rfl
 @[simp] theorem gen_timeCourseRefusal (a b : Rat) : Gen.timeCourseRefusal.eval a b = decide (a ≤ b) := rfl
 @[simp] theorem gen_timeCourseKeep (a b : Rat) : Gen.timeCourseKeep.eval a b = decide (b ≤ a) := rfl
